@@ -143,5 +143,11 @@ class AlgorithmWithAnnealingMixin:
                     # Decrease temperature linearly
                     self.temperature -= self._annealing_temperature_decrement
                     self.temperature = max(self.temperature, 1)
+                    # Last plateau: exactly 1 (the repeated subtraction may leave a rounding residue)
+                    if (
+                        self.current_iteration // self._annealing_period
+                        >= self.algo_parameters["annealing"]["n_plateau"] - 1
+                    ):
+                        self.temperature = 1.0
 
                 self.temperature_inv = 1.0 / self.temperature
